@@ -94,8 +94,10 @@ def span(ctx):
             init = unwrap(f, f.s(n_.get("init")))
             if init is not None and init["k"] in CTORS and len(init["args"]) == 1:
                 src = path(f, f.s(init["args"][0]))
-                if hv and src == "**" + hv:
-                    ok = True
+            else:
+                src = path(f, init) if init is not None else None      # scalar payloads: new int(**data)
+            if hv and src == "**" + hv:
+                ok = True
         ctx.ob(rid, ok, f.where, "the write handle points to a fresh deep copy of the committed value",
                "" if ok else "no 'new T(**<read handle>)'", fn=f.label, inst=f.qname)
         # deleter(std::move(guard), *this) with guard owned
